@@ -153,9 +153,10 @@ PrimOf(v) == CASE v.k = "num" -> v.t [] v.k = "fix" -> v.t [] v.k = "str" -> "St
                [] v.k = "path" -> (CASE v.dom = "storage" -> "StoragePath" [] v.dom = "public" -> "PublicPath" [] v.dom = "private" -> "PrivatePath")
                [] OTHER -> "?"
 
-\* a repeated dictionary key is tolerated (CCF: "checking is delegated to the runtime"): the LAST entry with a key
-\* is the one the script sees; entries shadowed by a later entry with the same key are dropped unexamined
-Effective(ps) == {i \in 1..Len(ps) : ~\E j \in (i + 1)..Len(ps) : KeyId(ps[j].key) = KeyId(ps[i].key)}
+\* A repeated dictionary key is tolerated (CCF: "checking is delegated to the runtime"): one entry per key survives -
+\* the last one when the argument is JSON-Cadence, the first one after CCF's sort - and the entries it shadows are
+\* only checked shallowly. The model therefore asks for SOME entry per distinct key to conform.
+KeyIds(ps) == {KeyId(ps[i].key) : i \in 1..Len(ps)}
 
 RECURSIVE Conforms(_, _), ConformsU(_, _), WellFormed(_)
 \* a value on its own: importable, and every composite inside matches its declaration
@@ -163,8 +164,9 @@ WellFormed(v) ==
   CASE v.k \in {"num", "fix", "str", "chr", "bool", "addr", "void", "type", "path"} -> TRUE
     [] v.k = "opt"  -> v.v = <<>> \/ WellFormed(v.v[1])
     [] v.k = "arr"  -> \A i \in 1..Len(v.vs) : WellFormed(v.vs[i])
-    [] v.k = "dict" -> \A i \in Effective(v.ps) : WellFormed(v.ps[i].key) /\ WellFormed(v.ps[i].v)
-                                                /\ v.ps[i].key.k \in {"num", "fix", "str", "chr", "bool", "addr", "path", "type"}
+    [] v.k = "dict" -> \A kid \in KeyIds(v.ps) : \E i \in 1..Len(v.ps) :
+                          /\ KeyId(v.ps[i].key) = kid /\ WellFormed(v.ps[i].key) /\ WellFormed(v.ps[i].v)
+                          /\ v.ps[i].key.k \in {"num", "fix", "str", "chr", "bool", "addr", "path", "type"}
     [] v.k = "range" -> /\ v.start.k = "num" /\ v.end.k = "num" /\ v.step.k = "num"
                         /\ v.start.t = v.end.t /\ v.start.t = v.step.t
     [] v.k = "comp" -> /\ IsDeclared(v.t.tid)
@@ -188,7 +190,8 @@ ConformsU(v, t) ==
        [] t.k = "opt"  -> IF v.k = "opt" THEN v.v = <<>> \/ Conforms(v.v[1], t.t) ELSE Conforms(v, t.t)
        [] t.k = "varr" -> v.k = "arr" /\ \A i \in 1..Len(v.vs) : Conforms(v.vs[i], t.t)
        [] t.k = "carr" -> v.k = "arr" /\ Len(v.vs) = t.size /\ \A i \in 1..Len(v.vs) : Conforms(v.vs[i], t.t)
-       [] t.k = "dict" -> v.k = "dict" /\ \A i \in Effective(v.ps) : Conforms(v.ps[i].key, t.key) /\ Conforms(v.ps[i].v, t.t)
+       [] t.k = "dict" -> v.k = "dict" /\ \A kid \in KeyIds(v.ps) : \E i \in 1..Len(v.ps) :
+                              KeyId(v.ps[i].key) = kid /\ Conforms(v.ps[i].key, t.key) /\ Conforms(v.ps[i].v, t.t)
        [] t.k = "range" -> v.k = "range" /\ Conforms(v.start, t.t) /\ (t.t.k = "prim" /\ t.t.n \in Concrete => v.start.t = t.t.n)
        [] t.k = "comp" -> v.k = "comp" /\ v.t.tid = t.tid
        [] t.k = "inter" -> v.k = "comp" /\ \A i \in 1..Len(t.types) : <<v.t.tid, t.types[i].tid>> \in Implements
